@@ -317,16 +317,85 @@ pub fn check(tier: Tier) -> i32 {
         Arc::new(|_h| vec![0, 1, 2]),
         Arc::new(move |h, ctx| run(&p2, h, ctx)),
     );
+    // path-created writers over paths that already hold longer files: every history up to depth 3
+    let mut disk = Ctx::new();
+    if !super::c01_c02::scratch_usable() {
+        return 2;
+    }
+    let dir = super::c01_c02::scratch_dir();
+    for (ti, ty) in ALL13.iter().enumerate() {
+        let pal = &pals[ti];
+        let mut hs: Vec<Vec<WOp>> = vec![vec![]];
+        let mut cur: Vec<Vec<WOp>> = vec![vec![]];
+        for _ in 0..3 {
+            let mut next = vec![];
+            for c in &cur {
+                for op in [WOp::W(0), WOp::W(1), WOp::F] {
+                    let mut x = c.clone();
+                    x.push(op);
+                    next.push(x);
+                }
+            }
+            hs.extend(next.iter().cloned());
+            cur = next;
+        }
+        let run_on_disk = |ops: &[WOp], tag: &str| -> Result<(Vec<u8>, Vec<u8>), String> {
+            let path = dir.join(format!("c09-{}.shp", tag));
+            std::fs::write(&path, vec![0xEEu8; 5000]).map_err(|e| e.to_string())?;
+            std::fs::write(path.with_extension("shx"), vec![0xEEu8; 3000]).map_err(|e| e.to_string())?;
+            {
+                let mut w = shapefile::ShapeWriter::from_path(&path).map_err(|e| crate::bridge::err_kind(&e))?;
+                for op in ops {
+                    match op {
+                        WOp::W(k) => crate::bridge::write_shape(&mut w, &pal.lib[*k as usize]).map_err(|e| crate::bridge::err_kind(&e))?,
+                        _ => w.finalize().map_err(|e| crate::bridge::err_kind(&e))?,
+                    }
+                }
+            }
+            let r = (std::fs::read(&path).map_err(|e| e.to_string())?, std::fs::read(path.with_extension("shx")).map_err(|e| e.to_string())?);
+            let _ = std::fs::remove_file(&path);
+            let _ = std::fs::remove_file(path.with_extension("shx"));
+            Ok(r)
+        };
+        for h in &hs {
+            let writes: Vec<WOp> = h.iter().copied().filter(|o| matches!(o, WOp::W(_))).collect();
+            let cj = json!({"ty": ty.name(), "route": "from_path over existing longer files", "ops": ops_name(h)});
+            let mut hh = Fnv::new();
+            hh.str(&cj.to_string());
+            let got = catch(|| (run_on_disk(h, "a"), run_on_disk(&writes, "b")));
+            disk.lib_calls += h.len() as u64 * 2 + 4;
+            disk.traces += 1;
+            disk.case_done(hh.finish(), h.contains(&WOp::F), 3);
+            match got {
+                Ok((Ok(a), Ok(b))) => {
+                    if a != b {
+                        disk.violation("disk:final-files-differ", || cj.clone(), || format!(".shp {} vs {} bytes, .shx {} vs {} bytes (history vs writes+drop)", a.0.len(), b.0.len(), a.1.len(), b.1.len()));
+                    }
+                    let handed: Vec<MRead> = writes.iter().map(|o| if let WOp::W(k) = o { pal.built[*k as usize].clone() } else { unreachable!() }).collect();
+                    if let Some(c) = shp_holds_exactly(&a.0, *ty, &handed) {
+                        disk.violation(format!("disk:file-invalid:{}", clause_class(&c)), || cj.clone(), || c);
+                    } else if let Err(e) = shx_matches_shp(&a.0, &a.1) {
+                        disk.violation(format!("disk:index-invalid:{}", clause_class(&e)), || cj.clone(), || e);
+                    }
+                }
+                Ok((a, b)) => disk.violation("disk:call-failed", || cj.clone(), || format!("{:?} / {:?}", a.err(), b.err())),
+                Err(p) => disk.violation(format!("disk:{}", p.sig()), || cj.clone(), || p.msg.clone()),
+            }
+        }
+    }
+    super::c01_c02::cleanup_scratch();
     let st = selftest(&pals);
-    let agg = merge(res.ctxs);
+    let mut ctxs = res.ctxs;
+    ctxs.push(disk);
+    let agg = merge(ctxs);
     finish(
         RunInfo {
             prop: "C09",
             tier,
             level: "model_checking",
             engine: "E1 stateright BFS over operation histories (state = history, no merging), each state executed on the real ShapeWriter over instrumented devices",
-            rule: "every sequence over {write a, write b, finalize} up to the depth bound x 13 types x {with,without .shx} x 5 endings {drop, finalize+drop, write_shapes(self,[c]*k) k=0,1,2}; distinct = the history; non-trivial = contains a finalize or a non-drop ending",
-            bounds: json!({"depth": depth, "alphabet": ["Wa", "Wb", "F"], "types": 13, "endings": 5, "index": [true, false]}),
+            rule: "every sequence over {write a, write b, finalize} up to the depth bound x 13 types x {with,without .shx} x 6 endings {drop, finalize+drop, write_shapes(self,[c]*k) k=0,1,2, drop by stack unwinding}; plus every history up to depth 3 through ShapeWriter::from_path over paths that already hold longer files; distinct = the history; non-trivial = contains a finalize or a non-drop ending",
+            bounds: json!({"depth": depth, "alphabet": ["Wa", "Wb", "F"], "types": 13, "endings": 6, "index": [true, false]}),
             exhaustive: true,
             assumptions: vec![
                 "reference for 'same bytes as drop' is a run of the same tree (differential), itself validated by RefCodec".into(),
